@@ -1,6 +1,7 @@
 (* Extraction of the C05 RaIR validator (ExtrOcamlBasic only; numbers stay Coq's nat/positive/N/Z datatypes). *)
 From Coq Require Extraction ExtrOcamlBasic.
-From Verif Require Import RegAlloc.RaIRModel.
+From Verif Require Import RegAlloc.RaIRModel RegAlloc.RwRuleModel.
 Extraction Blacklist List String Int.
 Extraction "rair.ml" RaIRModel.validate_full RaIRModel.validate RaIRModel.infer RaIRModel.check RaIRModel.first_bad RaIRModel.check_pc
-  RaIRModel.check_progress RaIRModel.infer_ranks RaIRModel.srun RaIRModel.trun.
+  RaIRModel.check_progress RaIRModel.infer_ranks RaIRModel.srun RaIRModel.trun
+  RwRuleModel.classify RwRuleModel.idiom_of.
